@@ -245,6 +245,17 @@ class BodyGen:
         return {"op": "bulk_insert", "table": table["name"], "cols": [{"name": c["name"], "type": c["type"]} for c in used],
                 "rows": rows, "multiinsert": multi}
 
+    def wrap_autocommit(self, ops):
+        """with probability ~1/5 put a contiguous run of the body into `with op.get_context().autocommit_block():`
+        (any position: first, middle, last statements; sometimes an empty block)"""
+        rng = self.rng
+        if rng.random() >= 0.2:
+            return ops
+        n = len(ops)
+        i = rng.randint(0, n)
+        j = rng.randint(i, min(n, i + rng.choice([0, 1, 1, 2, 3])))
+        return ops[:i] + [{"op": "autocommit", "ops": ops[i:j]}] + ops[j:]
+
     def gen_rev(self, rev, anc):
         """anc: ancestors of rev (excluding rev)"""
         rng = self.rng
@@ -298,6 +309,7 @@ class BodyGen:
                     if rng.random() < 0.5:
                         up.append({"op": "drop_index", "name": ix, "table": tt["name"]})
                 up.append({"op": "drop_table", "name": tt["name"]})
+        up = self.wrap_autocommit(up)
         # downgrade: optional data operations on what still exists, then undo in reverse
         down = []
         av = avail()
@@ -309,6 +321,7 @@ class BodyGen:
             # drop_column is outside the modelled language: keep the column on downgrade
             undo = [u for u in undo if u["op"] != "drop_column"]
         down.extend(reversed(undo))
+        down = self.wrap_autocommit(down)
         return {"up": up, "down": down}
 
 
@@ -379,8 +392,11 @@ def gen_case(rng, max_n, real=False, lang_only=False, tabs=False, hetero=False, 
 
 
 def in_language(ops):
-    """is a body inside the migration-body language of the Lean model?"""
-    for o in ops:
+    """is a body inside the migration-body language of the Lean model?  (autocommit blocks are transparent for
+    the model: it has no transaction layer, and on SQLite they add nothing to the --sql output)"""
+    from .offline_impl import flat_ops
+
+    for o in flat_ops(ops):
         k = o["op"]
         if k == "create_table":
             if any(c.get("pk") or c.get("default") or c["type"] not in TYPES_LANG for c in o["cols"]):
